@@ -586,6 +586,7 @@ type Violation struct {
 	Verdict string // sat | unknown
 	Hashes  []HashTarget
 	Seed    uint64
+	Seeds   []uint64
 	Case    int
 }
 
@@ -709,6 +710,7 @@ func (s *State) reportWith(kind, msg string, m Model, verdict string) {
 		}
 		v.Inputs = s.inputsUnder(m)
 		v.Hashes, v.Seed = hashTargets(m)
+		v.Seeds = append([]uint64(nil), lastSeeds...)
 	}
 	violations = append(violations, v)
 	if verbose {
@@ -844,6 +846,8 @@ func (s *State) monitor(fr *Frame, id, off, n int, write bool) {
 	}
 }
 
+var lastSeeds []uint64
+
 // hashTargets lists, for every application of the uninterpreted hash whose
 // value the model fixes, the argument bytes and the hash value (replays realise
 // them with real keys).
@@ -872,6 +876,15 @@ func hashTargets(m Model) ([]HashTarget, uint64) {
 	var seed uint64
 	if sd, ok := m[Var("hashseed", 32)]; ok {
 		seed = sd
+	}
+	lastSeeds = []uint64{seed}
+	for k := 2; k < 8; k++ {
+		if sd, ok := m[Var(fmt.Sprintf("hashseed#%d", k), 32)]; ok {
+			for len(lastSeeds) < k {
+				lastSeeds = append(lastSeeds, seed)
+			}
+			lastSeeds[k-1] = sd
+		}
 	}
 	return out, seed
 }
